@@ -4,6 +4,7 @@
    canonical coefficients, fewer coefficients than points + 1, that takes the given values; hence RingToRns o RnsToRing = id.
    (Uniqueness of the interpolating polynomial - root counting over a field - is not proved here.) *)
 From Coq Require Import ZArith Znumtheory Bool List Lia Setoid Morphisms.
+(* second half of the file: uniqueness of the interpolant, so that the polynomial CRT obeys the full law *)
 From C14 Require Import Model ProofsArith ProofsGarner.
 Import ListNotations.
 Local Open Scope Z_scope.
@@ -249,14 +250,153 @@ End Poly.
 Definition Poly_interpolation_stmt : Prop :=
   forall p pts rs, prime p -> pts <> [] -> distinct_mod p pts -> length rs = length pts ->
   Poly_interpolation_post p pts rs (poly_RnsToRing p pts rs).
-(* the full law (NOT proved here: the uniqueness half needs root counting over GF(p)); kept visible *)
+(* ---------------------------------------------------------------- uniqueness of the interpolant (root counting over GF(p)) *)
+Section Unique.
+  Variable p : Z.
+  Hypothesis Hp : prime p.
+  Let Hpos : 0 < p. Proof. destruct Hp. lia. Qed.
+  Local Notation "a == b" := (cg p a b) (at level 70).
+
+  (* synthetic division by (X - x0), over Z: a = (X - x0) * sdiv a x0 + a(x0) *)
+  Fixpoint sdiv (a : list Z) (x0 : Z) : list Z :=
+    match a with
+    | [] => []
+    | c :: a' => match a' with [] => [] | _ => zeval a' x0 :: sdiv a' x0 end
+    end.
+
+  Lemma sdiv_spec : forall a x0 x, zeval a x = (x - x0) * zeval (sdiv a x0) x + zeval a x0.
+  Proof.
+    induction a as [|c a' IH]; intros x0 x; [cbn; ring|].
+    destruct a' as [|d a''].
+    - cbn. ring.
+    - change (sdiv (c :: d :: a'') x0) with (zeval (d :: a'') x0 :: sdiv (d :: a'') x0).
+      rewrite !(zeval_cons c), (zeval_cons (zeval (d :: a'') x0)). rewrite (IH x0 x). ring.
+  Qed.
+
+  Lemma sdiv_length : forall a x0, length (sdiv a x0) = pred (length a).
+  Proof.
+    induction a as [|c a' IH]; intros x0; [reflexivity|]. destruct a' as [|d a'']; [reflexivity|].
+    change (sdiv (c :: d :: a'') x0) with (zeval (d :: a'') x0 :: sdiv (d :: a'') x0).
+    cbn [length pred]. rewrite IH. reflexivity.
+  Qed.
+
+  Definition allzero (a : list Z) : Prop := Forall (fun c => c == 0) a.
+
+  Lemma sdiv_allzero : forall a x0, allzero (sdiv a x0) -> zeval a x0 == 0 -> allzero a.
+  Proof.
+    induction a as [|c a' IH]; intros x0 Hq H0; [constructor|].
+    destruct a' as [|d a''].
+    - constructor; [|constructor]. cbn in H0. rewrite <- H0. replace (0 * x0 + c) with c by ring. reflexivity.
+    - change (sdiv (c :: d :: a'') x0) with (zeval (d :: a'') x0 :: sdiv (d :: a'') x0) in Hq.
+      inversion Hq as [|? ? Hq0 Hq']; subst.
+      constructor; [|apply (IH x0); assumption].
+      rewrite zeval_cons in H0. rewrite Hq0 in H0. rewrite <- H0. replace (0 * x0 + c) with c by ring. reflexivity.
+  Qed.
+
+  (* a polynomial with fewer coefficients than it has roots (pairwise distinct mod p) vanishes mod p *)
+  Lemma roots_allzero : forall pts a, distinct_mod p pts -> (length a <= length pts)%nat ->
+    (forall x, In x pts -> zeval a x == 0) -> allzero a.
+  Proof.
+    induction pts as [|x0 pts IH]; intros a Hd Hl Hr.
+    - destruct a; [constructor|cbn in Hl; lia].
+    - inversion Hd as [|? ? Hx0 Hd']; subst.
+      apply (sdiv_allzero a x0); [|apply Hr; left; reflexivity].
+      apply IH; [exact Hd'| |].
+      + rewrite sdiv_length. cbn [length] in Hl. lia.
+      + intros x Hin. assert (Hax : zeval a x == 0) by (apply Hr; right; exact Hin).
+        rewrite (sdiv_spec a x0 x) in Hax. rewrite (Hr x0 (or_introl eq_refl)) in Hax. rewrite Z.add_0_r in Hax.
+        unfold cg in *. rewrite Z.sub_0_r in *.
+        rewrite Forall_forall in Hx0. specialize (Hx0 x Hin).
+        destruct (prime_mult p Hp _ _ Hax) as [H|H]; [contradiction|exact H].
+  Qed.
+
+  (* coefficientwise difference over Z *)
+  Fixpoint psub (a b : list Z) : list Z :=
+    match a, b with
+    | [], _ => map Z.opp b
+    | _, [] => a
+    | x :: a', y :: b' => (x - y) :: psub a' b'
+    end.
+  Lemma zeval_map_opp : forall b x, zeval (map Z.opp b) x = - zeval b x.
+  Proof. induction b as [|c b IH]; intros x; [reflexivity|]. cbn [map]. rewrite !zeval_cons, IH. ring. Qed.
+  Lemma zeval_psub : forall a b x, zeval (psub a b) x = zeval a x - zeval b x.
+  Proof.
+    induction a as [|c a IH]; intros b x.
+    - cbn [psub]. rewrite zeval_map_opp. change (zeval [] x) with 0. ring.
+    - destruct b as [|d b]; [cbn [psub]; change (zeval [] x) with 0; ring|].
+      cbn [psub]. rewrite !zeval_cons, IH. ring.
+  Qed.
+  Lemma psub_length : forall a b, length (psub a b) = Nat.max (length a) (length b).
+  Proof.
+    induction a as [|c a IH]; intros b; [cbn [psub length Nat.max]; apply map_length|].
+    destruct b as [|d b]; [reflexivity|]. cbn [psub length Nat.max]. rewrite IH. reflexivity.
+  Qed.
+  Lemma psub_nth : forall a b i, nth i (psub a b) 0 = nth i a 0 - nth i b 0.
+  Proof.
+    induction a as [|c a IH]; intros b i.
+    - cbn [psub]. replace (nth i [] 0) with 0 by (destruct i; reflexivity).
+      change 0 with (Z.opp 0) at 1. rewrite map_nth. ring.
+    - destruct b as [|d b].
+      + cbn [psub]. replace (nth i [] 0) with 0 by (destruct i; reflexivity). ring.
+      + cbn [psub]. destruct i; cbn [nth]; [ring|apply IH].
+  Qed.
+  Lemma allzero_nth : forall a i, allzero a -> nth i a 0 == 0.
+  Proof.
+    induction a as [|c a IH]; intros i H; [destruct i; reflexivity|].
+    inversion H; subst. destruct i; cbn [nth]; [assumption|apply IH; assumption].
+  Qed.
+  Lemma canon_nth : forall a i, canon p a -> 0 <= nth i a 0 < p.
+  Proof.
+    induction a as [|c a IH]; intros i H; [destruct i; cbn; lia|].
+    inversion H; subst. destruct i; cbn [nth]; [assumption|apply IH; assumption].
+  Qed.
+
+  (* two canonical polynomials with at most n coefficients that agree (as evaluated by the code) on n distinct points are equal *)
+  Lemma interpolant_unique : forall pts I J, distinct_mod p pts -> canon p I -> canon p J ->
+    (length I <= length pts)%nat -> (length J <= length pts)%nat ->
+    poly_RingToRns p pts J = poly_RingToRns p pts I -> forall i, nth i J 0 = nth i I 0.
+  Proof.
+    intros pts I J Hd HI HJ HlI HlJ He i.
+    assert (Hz : allzero (psub J I)).
+    { apply (roots_allzero pts); [exact Hd|rewrite psub_length; lia|].
+      intros x Hin. rewrite zeval_psub.
+      assert (Ex : peval p J x = peval p I x).
+      { unfold poly_RingToRns in He. clear - He Hin. induction pts as [|y pts IH]; [destruct Hin|].
+        cbn [map] in He. inversion He. destruct Hin as [->|Hin]; [assumption|apply IH; assumption]. }
+      rewrite <- (peval_zeval p J x), <- (peval_zeval p I x), Ex. unfold cg. rewrite Z.sub_diag, Z.sub_0_r. apply Z.divide_0_r. }
+    pose proof (allzero_nth _ i Hz) as Hn. rewrite psub_nth in Hn. unfold cg in Hn. rewrite Z.sub_0_r in Hn.
+    apply (divide_mod_small p); [exact Hpos|exact Hn|apply canon_nth; exact HJ|apply canon_nth; exact HI].
+  Qed.
+End Unique.
+
+(* the full law: existence (interpolation) and uniqueness *)
 Definition Poly_crt_full_stmt : Prop :=
   forall p pts rs, prime p -> pts <> [] -> distinct_mod p pts -> length rs = length pts ->
   Poly_interpolation_post p pts rs (poly_RnsToRing p pts rs) /\
-  forall J, canon p J -> (length J <= length pts)%nat -> poly_RingToRns p pts J = map (fun r => r mod p) rs ->
-            forall i, nth i J 0 = nth i (poly_RnsToRing p pts rs) 0.
+  (forall J, canon p J -> (length J <= length pts)%nat -> poly_RingToRns p pts J = map (fun r => r mod p) rs ->
+             forall i, nth i J 0 = nth i (poly_RnsToRing p pts rs) 0) /\
+  (* hence RnsToRing o RingToRns = id on canonical polynomials of degree < n *)
+  (forall J, canon p J -> (length J <= length pts)%nat ->
+             forall i, nth i (poly_RnsToRing p pts (poly_RingToRns p pts J)) 0 = nth i J 0).
 Lemma poly_interpolation : Poly_interpolation_stmt.
 Proof. intros p pts rs Hp. apply poly_RnsToRing_spec. exact Hp. Qed.
+
+Lemma peval_mod_id : forall p a x, 0 < p -> peval p a x mod p = peval p a x.
+Proof. intros p [|c a] x Hp; cbn [peval fold_right]; [apply Z.mod_0_l; lia|apply Z.mod_mod; lia]. Qed.
+
+Lemma poly_crt_full : Poly_crt_full_stmt.
+Proof.
+  intros p pts rs Hp Hne Hd Hl.
+  pose proof (poly_interpolation p pts rs Hp Hne Hd Hl) as (L1 & C1 & E1).
+  split; [repeat split; assumption|]. split.
+  - intros J HJ HlJ EJ. apply (interpolant_unique p Hp pts); auto. rewrite EJ, E1. reflexivity.
+  - intros J HJ HlJ i.
+    assert (Hl2 : length (poly_RingToRns p pts J) = length pts) by (unfold poly_RingToRns; apply map_length).
+    pose proof (poly_interpolation p pts (poly_RingToRns p pts J) Hp Hne Hd Hl2) as (L2 & C2 & E2).
+    symmetry. apply (interpolant_unique p Hp pts); auto.
+    rewrite E2. unfold poly_RingToRns. rewrite map_map. apply map_ext. intros x. symmetry. apply peval_mod_id.
+    destruct Hp; lia.
+Qed.
 
 Example poly_example : prime 7 /\ distinct_mod 7 [1; 2; 3] /\ poly_RnsToRing 7 [1; 2; 3] [1; 4; 2] = [0; 0; 1].
 Proof.
